@@ -8,8 +8,6 @@ import (
 	"sort"
 	"strings"
 
-	"golang.org/x/tools/go/cfg"
-
 	"rscheck/cfgq"
 	"rscheck/core"
 	"rscheck/pat"
@@ -42,6 +40,24 @@ func singleDef(info *types.Info, root ast.Node, o types.Object) ast.Expr {
 		return rhs[0]
 	}
 	return nil
+}
+
+// copySource follows plain copies (`x = y` / `x, z = y, w`, the only value x
+// ever gets) back to the variable the value was first bound to. Expanding a
+// helper in place and splitting a result struct leave such copies behind.
+func copySource(info *types.Info, body ast.Node, o types.Object) types.Object {
+	for i := 0; i < 6 && o != nil; i++ {
+		d := singleDef(info, body, o)
+		if d == nil {
+			return o
+		}
+		src, isVar := objOf(info, d).(*types.Var)
+		if !isVar || src.IsField() {
+			return o
+		}
+		o = src
+	}
+	return o
 }
 
 // polarity reduces a boolean expression to one call of target: e <=> call
@@ -106,7 +122,7 @@ func boolConst(info *types.Info, e ast.Expr) (val, ok bool) {
 	return false, false
 }
 
-func wiring(c *core.Ctx, it *interp, wrap, fkey *core.Fn) {
+func wiring(c *core.Ctx, it *interp, wrap, fkey *core.Fn, entries []entry) {
 	info := it.info
 	gmk := it.fn
 	g := cfgq.Of(c.Program, gmk)
@@ -207,7 +223,7 @@ func wiring(c *core.Ctx, it *interp, wrap, fkey *core.Fn) {
 	// lookup: node, ok := table[cmd]
 	var lookup *ast.AssignStmt
 	viaHelper := false // the lookup is made by a same-package helper returning (entry, found)
-	if o := objOf(winfo, gmCall.Args[0]); o != nil {
+	if o := copySource(winfo, wrap.Decl.Body, objOf(winfo, gmCall.Args[0])); o != nil {
 		ast.Inspect(wrap.Decl.Body, func(n ast.Node) bool {
 			if as, ok := n.(*ast.AssignStmt); ok && len(as.Rhs) == 1 && objOf(winfo, as.Lhs[0]) == o {
 				if _, ok := ast.Unparen(as.Rhs[0]).(*ast.IndexExpr); ok {
@@ -233,8 +249,13 @@ func wiring(c *core.Ctx, it *interp, wrap, fkey *core.Fn) {
 		c.Check("R4.verdict", "HandleFilterKeyWithCommand/unknown-command-unchanged", lookup.Pos(), false, "the table lookup has no presence test: a command absent from the table yields the zero entry (keystep 0) and the key loop never terminates / the command is mangled instead of being forwarded unchanged")
 	default:
 		bd := pat.Binds{"_ok": lookup.Lhs[1]}
+		okObj := objOf(winfo, lookup.Lhs[1])
 		ok, _ := onlyVia(wg, gp, func(f cfgq.Fact) bool {
-			return pat.Expr("_ok").Match(winfo, f.Expr, bd) != nil && f.Val
+			if pat.Expr("_ok").Match(winfo, f.Expr, bd) != nil && f.Val {
+				return true
+			}
+			o := objOf(winfo, f.Expr) // a copy of the flag
+			return f.Val && o != nil && okObj != nil && copySource(winfo, wrap.Decl.Body, o) == okObj
 		})
 		if !ok { // whatever the spelling of the test: with ok == false no path reaches the interpreter
 			as := &assumption{c: c, info: winfo, pkg: wrap.Obj.Pkg(), body: wrap.Decl.Body, lenOf: func(ast.Expr) (int64, bool) { return 0, false },
@@ -329,6 +350,9 @@ func wiring(c *core.Ctx, it *interp, wrap, fkey *core.Fn) {
 		}
 		if objOf(winfo, r.Results[0]) == argvParam {
 			v, isC := boolConst(winfo, r.Results[1])
+			if !isC && lookup != nil && len(lookup.Lhs) == 2 && singleKeyShortcut(c, it, wrap, fkey, wg, p, lookup, argvParam, entries, listLen) {
+				continue
+			}
 			if !isC {
 				c.Undecidedf("R4.verdict", key, r.Pos(), "unrecognised return %s", c.Src(r))
 			} else {
@@ -373,382 +397,9 @@ func wiring(c *core.Ctx, it *interp, wrap, fkey *core.Fn) {
 	caller(c, wrap, wrapperNeg, wrapperKnown)
 }
 
-// passVerdict: the interpreter's second result is true iff at least one key passed.
-func passVerdict(c *core.Ctx, it *interp, g *cfgq.Graph, kept func(cfgq.Fact) bool) {
-	info, gmk := it.info, it.fn
-	res := gmk.Obj.Type().(*types.Signature).Results()
-	key := "getMatchKeys/pass-iff-some-key-kept"
-	if res.Len() != 2 {
-		c.Undecidedf("R4.verdict", key, gmk.Decl.Pos(), "getMatchKeys does not return (vector, pass)")
-		return
-	}
-	bd := pat.Binds{"_num": it.num}
-	type pv struct {
-		p   string
-		val bool
-	}
-	some := func(f cfgq.Fact) bool {
-		for _, x := range []pv{{"_num > 0", true}, {"_num != 0", true}, {"_num >= 1", true}, {"_num == 0", false}, {"_num <= 0", false}, {"_num < 1", false}} {
-			if x.val == f.Val && pat.Expr(x.p).Match(info, f.Expr, bd) != nil {
-				return true
-			}
-		}
-		return false
-	}
-	none := func(f cfgq.Fact) bool {
-		for _, x := range []pv{{"_num > 0", false}, {"_num != 0", false}, {"_num >= 1", false}, {"_num == 0", true}, {"_num <= 0", true}, {"_num < 1", true}} {
-			if x.val == f.Val && pat.Expr(x.p).Match(info, f.Expr, bd) != nil {
-				return true
-			}
-		}
-		return false
-	}
-	direct := func(e ast.Expr) (ok, good bool) { // pass = num > 0
-		for _, p := range []string{"_num > 0", "_num != 0", "_num >= 1"} {
-			if pat.Expr(p).Match(info, e, bd) != nil {
-				return true, true
-			}
-		}
-		for _, p := range []string{"_num == 0", "_num <= 0", "_num < 1", "_num > 1", "_num >= 0"} {
-			if pat.Expr(p).Match(info, e, bd) != nil {
-				return true, false
-			}
-		}
-		return false, false
-	}
-	passObj := types.Object(res.At(1))
-	named := res.At(1).Name() != ""
-	var exprs []ast.Expr // expressions that define the verdict
-	var pts []cfgq.Point
-	for _, p := range g.Points(func(n ast.Node) bool {
-		switch s := n.(type) {
-		case *ast.AssignStmt:
-			for _, l := range s.Lhs {
-				if named && objOf(info, l) == passObj {
-					return true
-				}
-			}
-		case *ast.ReturnStmt:
-			return len(s.Results) == 2
-		}
-		return false
-	}) {
-		switch s := p.Node().(type) {
-		case *ast.AssignStmt:
-			for i, l := range s.Lhs {
-				if objOf(info, l) == passObj {
-					exprs, pts = append(exprs, core.AssignedTo(s, i)), append(pts, p)
-				}
-			}
-		case *ast.ReturnStmt:
-			if !(named && objOf(info, s.Results[1]) == passObj) {
-				exprs, pts = append(exprs, s.Results[1]), append(pts, p)
-			}
-		}
-	}
-	if len(exprs) == 0 {
-		c.Undecidedf("R4.verdict", key, gmk.Decl.Pos(), "cannot find where the pass verdict is computed")
-		return
-	}
-	numObj := objOf(info, it.num)
-	if numObj == nil { // the number of kept keys is spelled len(arr)
-		numObj = objOf(info, it.arr)
-	}
-	for i, e := range exprs {
-		p := pts[i]
-		pos := p.Node().Pos()
-		if e == nil {
-			c.Undecidedf("R4.verdict", key, pos, "unrecognised verdict assignment")
-			continue
-		}
-		if v, isC := boolConst(info, e); isC {
-			if !v {
-				c.Okf("R4.verdict", key+"/init-false", pos, "verdict initialised to false")
-				continue
-			}
-			okSome, _ := onlyVia(g, p, some)
-			okKept, _ := onlyVia(g, p, kept)
-			okNone, wn := onlyVia(g, p, none)
-			// reachable without ever keeping a key and without consulting the counter?
-			free := g.Path(cfgq.Query{From: g.Entry(), Target: func(n ast.Node) bool { return n == p.Node() },
-				AvoidEdge: func(b *cfg.Block, s int) bool {
-					cond := cfgq.CondOf(b)
-					return cond != nil && mentionsObj(info, cond, numObj) || edgeHas(g, b, s, kept)
-				}})
-			switch {
-			case okSome || okKept:
-				c.Okf("R4.verdict", key+"/true-only-if-kept", pos, "verdict set to true only when at least one key was kept")
-			case okNone:
-				c.Check("R4.verdict", key+"/true-only-if-kept", pos, false, "the verdict is set to true exactly when NO key passed: commands whose keys all fail the filter are forwarded (with no keys), the others dropped", wn...)
-			case free != nil:
-				c.Check("R4.verdict", key+"/true-only-if-kept", pos, false, "the verdict is set to true on a path that neither kept a key nor consulted the number of kept keys: a command none of whose keys passes the filter is forwarded (e.g. `DEL k` with k blacklisted is sent as `DEL`)", free...)
-			default:
-				c.Undecidedf("R4.verdict", key+"/true-only-if-kept", pos, "cannot see that the verdict is true only when a key was kept")
-			}
-			continue
-		}
-		if ok, good := direct(e); ok {
-			c.Check("R4.verdict", key+"/expression", pos, good, fmt.Sprintf("the verdict must be `kept > 0` (found %s): otherwise commands without a passing key are forwarded or commands with one are dropped", c.Src(e)))
-		} else {
-			c.Undecidedf("R4.verdict", key, pos, "unrecognised verdict expression %s", c.Src(e))
-		}
-	}
-	// when the counter is known positive the verdict is set on every path to the exit
-	if named {
-		for _, b := range g.CFG.Blocks {
-			for si := range b.Succs {
-				if b.Live && len(b.Succs) == 2 && edgeHas(g, b, si, some) {
-					setTrue := func(n ast.Node) bool {
-						as, ok := n.(*ast.AssignStmt)
-						if !ok {
-							return false
-						}
-						for i, l := range as.Lhs {
-							if objOf(info, l) == passObj {
-								rhs := orNilExpr(core.AssignedTo(as, i))
-								if v, isC := boolConst(info, rhs); isC {
-									return v
-								}
-								_, good := direct(rhs) // pass = kept > 0
-								return good
-							}
-						}
-						return false
-					}
-					already, _ := g.Dominated(cfgq.Point{B: b, I: len(b.Nodes) - 1}, setTrue)
-					w := g.Path(cfgq.Query{From: cfgq.Point{B: b.Succs[si], I: 0}, Avoid: setTrue, TargetExit: cfgq.NormalExit})
-					if !already {
-						c.Check("R4.verdict", "getMatchKeys/pass-set-when-kept", cfgq.CondOf(b).Pos(), w == nil,
-							"with at least one key kept the verdict must become true before returning: otherwise a command with passing keys is dropped", w...)
-					}
-				}
-			}
-		}
-	}
-}
-
 func orNilExpr(e ast.Expr) ast.Expr {
 	if e == nil {
 		return &ast.Ident{Name: "_"}
 	}
 	return e
-}
-
-// caller: parseSourceCommand forwards the returned vector and skips on reject.
-func caller(c *core.Ctx, wrap *core.Fn, wrapperNeg, wrapperKnown bool) {
-	fn := c.Func(pkgSync, "DbSyncer", "parseSourceCommand")
-	if fn == nil {
-		return
-	}
-	info := fn.Pkg.TypesInfo
-	g := cfgq.Of(c.Program, fn)
-	var as *ast.AssignStmt
-	var call *ast.CallExpr
-	n := 0
-	ast.Inspect(fn.Decl.Body, func(m ast.Node) bool {
-		if a, ok := m.(*ast.AssignStmt); ok && len(a.Rhs) == 1 && len(a.Lhs) == 2 {
-			if cl, ok := ast.Unparen(a.Rhs[0]).(*ast.CallExpr); ok && core.CalleeFunc(info, cl) == wrap.Obj {
-				as, call = a, cl
-				n++
-			}
-		}
-		return true
-	})
-	if n != 1 || len(call.Args) != 2 {
-		c.Undecidedf("R4.caller", "parseSourceCommand/call", fn.Decl.Pos(), "expected one `new, reject = HandleFilterKeyWithCommand(cmd, argv)`, found %d", n)
-		return
-	}
-	newObj, rejObj := objOf(info, as.Lhs[0]), objOf(info, as.Lhs[1])
-	cmdObj, argvObj := objOf(info, call.Args[0]), objOf(info, call.Args[1])
-	// the forwarding site: a composite literal whose Cmd is the command name,
-	// built here or in a same-package helper that receives the command name and
-	// the arguments (`ds.pushCmd(sCmd, data, ...)`)
-	literal := func(body ast.Node, cmd types.Object) (*ast.CompositeLit, ast.Expr) {
-		var lit *ast.CompositeLit
-		var args ast.Expr
-		ast.Inspect(body, func(m ast.Node) bool {
-			if cl, ok := m.(*ast.CompositeLit); ok {
-				var cmdOK bool
-				var ax ast.Expr
-				for _, el := range cl.Elts {
-					if kv, ok := el.(*ast.KeyValueExpr); ok {
-						if id, ok := kv.Key.(*ast.Ident); ok {
-							if id.Name == "Cmd" && objOf(info, kv.Value) == cmd && cmd != nil {
-								cmdOK = true
-							}
-							if id.Name == "Args" {
-								ax = kv.Value
-							}
-						}
-					}
-				}
-				if cmdOK {
-					lit, args = cl, ax
-				}
-			}
-			return true
-		})
-		return lit, args
-	}
-	var fwd ast.Node
-	var argsExpr ast.Expr
-	if lit, ax := literal(fn.Decl.Body, cmdObj); lit != nil {
-		fwd, argsExpr = lit, ax
-	} else {
-		for _, hc := range core.Calls(fn.Decl.Body, info, func(hc *ast.CallExpr, o types.Object) bool {
-			f, _ := o.(*types.Func)
-			return f != nil && f.Pkg() == fn.Obj.Pkg() && f != wrap.Obj
-		}) {
-			hf := c.FnOf(core.CalleeFunc(info, hc))
-			if hf == nil || hf.Decl.Body == nil {
-				continue
-			}
-			ps := hf.Obj.Type().(*types.Signature).Params()
-			if ps.Len() != len(hc.Args) {
-				continue
-			}
-			for i, a := range hc.Args {
-				if objOf(info, a) != cmdObj || cmdObj == nil {
-					continue
-				}
-				if lit, ax := literal(hf.Decl.Body, ps.At(i)); lit != nil && ax != nil {
-					for j := 0; j < ps.Len(); j++ {
-						if objOf(info, ax) == types.Object(ps.At(j)) {
-							fwd, argsExpr = hc, hc.Args[j]
-						}
-					}
-				}
-			}
-		}
-	}
-	if fwd == nil || argsExpr == nil || newObj == nil || rejObj == nil {
-		c.Undecidedf("R4.caller", "parseSourceCommand/forwards-returned-vector", fn.Decl.Pos(), "cannot find the command forwarded with the parsed command name")
-		return
-	}
-	// where do the forwarded Args come from?
-	src := builtFrom(c, info, fn.Decl.Body, argsExpr, 0)
-	switch {
-	case src == newObj:
-		c.Okf("R4.caller", "parseSourceCommand/forwards-returned-vector", fwd.Pos(), "the forwarded arguments are built from the vector returned by the key filter")
-	case src != nil && src == argvObj:
-		c.Check("R4.caller", "parseSourceCommand/forwards-returned-vector", fwd.Pos(), false, "the forwarded arguments are built from the ORIGINAL argument vector, not from the one returned by the key filter: rejected keys of multi-key commands (e.g. DEL a b with b blacklisted) are still sent to the target")
-	default:
-		c.Undecidedf("R4.caller", "parseSourceCommand/forwards-returned-vector", fwd.Pos(), "cannot trace the forwarded arguments back to the key filter's result")
-	}
-	// skip on reject
-	cp, ok1 := g.Find(call)
-	fp, ok2 := g.Find(fwd)
-	if !ok1 || !ok2 {
-		c.Undecidedf("R4.caller", "parseSourceCommand/skips-on-reject", call.Pos(), "call or forwarding send not in the control-flow graph")
-		return
-	}
-	bd := pat.Binds{"_r": as.Lhs[1]}
-	rej := func(val bool) func(b *cfg.Block, s int) bool {
-		return func(b *cfg.Block, s int) bool {
-			return edgeHas(g, b, s, func(f cfgq.Fact) bool {
-				return pat.Expr("_r").Match(info, f.Expr, bd) != nil && f.Val == val ||
-					pat.Expr("_r == true").Match(info, f.Expr, bd) != nil && f.Val == val || pat.Expr("_r == false").Match(info, f.Expr, bd) != nil && f.Val != val
-			})
-		}
-	}
-	isCall := func(m ast.Node) bool { return m == cp.Node() }
-	isFwd := func(m ast.Node) bool { return m == fp.Node() }
-	onlyIfFalse := g.Path(cfgq.Query{From: cp, After: true, Target: isFwd, Avoid: isCall, AvoidEdge: rej(false)}) == nil
-	onlyIfTrue := g.Path(cfgq.Query{From: cp, After: true, Target: isFwd, Avoid: isCall, AvoidEdge: rej(true)}) == nil
-	key := "parseSourceCommand/skips-on-reject"
-	switch {
-	case !wrapperKnown || onlyIfFalse == onlyIfTrue:
-		c.Undecidedf("R4.caller", key, call.Pos(), "cannot relate the wrapper's second result to whether the command is forwarded")
-	default:
-		// forwarded only if second result false  <=> it means "reject"; the wrapper must then return !pass
-		c.Check("R4.caller", key, call.Pos(), onlyIfFalse == wrapperNeg,
-			fmt.Sprintf("the wrapper returns %s and the caller forwards only when that value is %v: commands whose keys pass are dropped and commands with no passing key are forwarded", map[bool]string{true: "!pass", false: "pass"}[wrapperNeg], !onlyIfFalse))
-	}
-}
-
-// nodeTested: some branch condition mentions the looked-up entry.
-func nodeTested(info *types.Info, body ast.Node, o types.Object) bool {
-	hit := false
-	ast.Inspect(body, func(n ast.Node) bool {
-		var cond ast.Expr
-		switch x := n.(type) {
-		case *ast.IfStmt:
-			cond = x.Cond
-		case *ast.CaseClause:
-			for _, e := range x.List {
-				if mentionsObj(info, e, o) {
-					hit = true
-				}
-			}
-		}
-		if cond != nil && mentionsObj(info, cond, o) {
-			hit = true
-		}
-		return true
-	})
-	return hit
-}
-
-// lookupHelper: e is a call h(key) of a same-package function that looks key up
-// in a package-level map and returns (entry, found) unchanged; it returns the
-// map and the key argument.
-func lookupHelper(c *core.Ctx, info *types.Info, e ast.Expr) (types.Object, ast.Expr, bool) {
-	call, ok := ast.Unparen(e).(*ast.CallExpr)
-	if !ok || len(call.Args) != 1 {
-		return nil, nil, false
-	}
-	f := core.CalleeFunc(info, call)
-	hf := c.FnOf(f)
-	if f == nil || hf == nil || hf.Decl.Body == nil || f.Type().(*types.Signature).Params().Len() != 1 || f.Type().(*types.Signature).Results().Len() != 2 {
-		return nil, nil, false
-	}
-	hinfo := hf.Pkg.TypesInfo
-	param := types.Object(f.Type().(*types.Signature).Params().At(0))
-	var m types.Object
-	var as *ast.AssignStmt
-	n := 0
-	ast.Inspect(hf.Decl.Body, func(x ast.Node) bool {
-		if ie, ok := x.(*ast.IndexExpr); ok {
-			if v, isVar := core.ObjOf(hinfo, ie.X).(*types.Var); isVar && v.Pkg() != nil && v.Parent() == v.Pkg().Scope() {
-				if _, isMap := v.Type().Underlying().(*types.Map); isMap && objOf(hinfo, ie.Index) == param {
-					m = v
-					n++
-				}
-			}
-		}
-		if a, ok := x.(*ast.AssignStmt); ok && len(a.Lhs) == 2 && len(a.Rhs) == 1 {
-			if _, isIdx := ast.Unparen(a.Rhs[0]).(*ast.IndexExpr); isIdx {
-				as = a
-			}
-		}
-		return true
-	})
-	if n != 1 || m == nil {
-		return nil, nil, false
-	}
-	// every return hands back the two results of that lookup (directly, or the locals holding them)
-	okRet := true
-	rets := 0
-	core.Inspect(hf.Decl.Body, func(x ast.Node) bool {
-		if r, ok := x.(*ast.ReturnStmt); ok {
-			rets++
-			switch {
-			case len(r.Results) == 1:
-				if _, isIdx := ast.Unparen(r.Results[0]).(*ast.IndexExpr); !isIdx {
-					okRet = false
-				}
-			case len(r.Results) == 2 && as != nil:
-				if !pat.Same(hinfo, r.Results[0], as.Lhs[0]) || !pat.Same(hinfo, r.Results[1], as.Lhs[1]) {
-					okRet = false
-				}
-			default:
-				okRet = false
-			}
-		}
-		return true
-	})
-	if !okRet || rets == 0 {
-		return nil, nil, false
-	}
-	return m, call.Args[0], true
 }
